@@ -269,3 +269,22 @@ def unknown_atoms(rule: Rule, ctx: Ctx, f: FuncInfo, s: Summary, unknown: list, 
         fail(rule, ctx, f, node or f.node,
              f"the outcome depends on the condition `{show(u)[:160]}`, which is not one of the conditions the "
              f"specification allows here ({spec_desc}); a different comparison/operand changes the accepted set")
+
+
+def check_param_defaults(ctx: Ctx, r: Rule, qual: str, want: dict) -> None:
+    """Default values of public parameters (part of the documented behaviour: 'omitted' must mean what the statement says)."""
+    f = ctx.func(qual)
+    a = f.node.args
+    pos = a.posonlyargs + a.args
+    defaults = {}
+    for p_, d in zip(pos[len(pos) - len(a.defaults):], a.defaults):
+        defaults[p_.arg] = d
+    for p_, d in zip(a.kwonlyargs, a.kw_defaults):
+        if d is not None:
+            defaults[p_.arg] = d
+    for name, val in want.items():
+        r.inst(f"{qual}: default {name}={val!r}")
+        d = defaults.get(name)
+        got = d.value if isinstance(d, ast.Constant) else (ast.unparse(d) if d is not None else "<required>")
+        if not (isinstance(d, ast.Constant) and d.value == val and type(d.value) is type(val)):
+            fail(r, ctx, f, d or f.node, f"parameter `{name}` of {qual} must default to {val!r}; found {got!r}")
